@@ -327,9 +327,12 @@ func (g *c31Grain) OnDeactivate(_ context.Context, _ *GrainProps) error {
 			"previous_deactivate_enter": a.deactEnter.Load(), "goroutine": verifrt.GoID(), "other_goroutine": a.busyGo.Load(), "stack": verifrt.Stack()}
 	}
 	if n := a.deactCalls.Add(1); n > 1 || len(all) > 1 {
-		cp := append([]string(nil), all...)
-		sort.Strings(cp)
-		m.viol("deactivate-twice:"+strings.Join(cp, "+"), wit())
+		// every caller appends its trigger before counting itself, so this
+		// snapshot names all calls that made the count exceed one
+		a.trigMu.Lock()
+		all = append([]string(nil), a.trigs...)
+		a.trigMu.Unlock()
+		m.viol("deactivate-twice:"+a.trig(), wit())
 	}
 	if a.state.Load() == c31Activating {
 		m.viol("deactivate-before-activate-exit:"+trig, wit())
